@@ -178,6 +178,32 @@ def run(prog: Program, chk: Check):
         if need not in regs:
             raise AnalysisError(f"anchor vanished: no registration into MessageManager.{need} found")
 
+    # ---- W nothing is published while the departing module is still a recipient ------------------------------------------------
+    # Past its idempotence guard remove_module must first take the module out of the recipient sets (subscriptions through the
+    # inverse index, logger_modules); only then may anything be published (CLIENT_CLOSED, a log record - the manager's logger
+    # republishes through forward_message).  A publication before that is routed to the departing module itself, the write fails,
+    # remove_module is entered again, passes the guard (the module is still in self.modules) and recurses without end.
+    W = chk.rule("C07-W", "remove_module publishes (CLIENT_CLOSED, log records) only after the module left every recipient set", 1,
+                 "a message published earlier is delivered to the departing module, whose failing write re-enters remove_module past its guard: unbounded recursion, the manager dies")
+    fwd = mm.methods["forward_message"]
+    pubs = []
+    for (cnode, st_, fi, desc) in cg.calls.get(rm.key, []):
+        if fi is not None and (fi.key == fwd.key or fwd.key in cg.may_call(fi)):
+            pubs += [(n, cnode, desc) for n in rg.nodes if any(c is cnode for c in node_calls(n))]
+    sub_loops = [n for n in rg.nodes if n.kind == "for" and path_of(n.ast.iter) == f"{mp}.subs"]
+    lg_erase = [n for n in rg.nodes if any(isinstance(c.func, ast.Attribute) and c.func.attr in REMOVERS and path_of(c.func.value) == "self.logger_modules" and c.args and path_of(c.args[0]) == mp
+                                            for c in node_calls(n))]
+    if not pubs:
+        raise AnalysisError("anchor vanished: remove_module publishes nothing (CLIENT_CLOSED)")
+    for n, cnode, desc in pubs:
+        # the subscription loop is complete when its `done` edge was taken: reaching the publication without it, or without the logger erase
+        early_subs = not sub_loops or n.id in flow.reach(rg, [rg.entry.id], follow=lambda e: lf(e) and not (e.src in {x.id for x in sub_loops} and e.kind == "done") and e.kind != "exc")
+        early_lg = not lg_erase or bool(flow.must_precede(rg, lg_erase, [n], follow=lf))
+        W.decide(not early_subs and not early_lg, fkey(rm, f"publish-after-erase:{norm(cnode)[:50]}"), where(rm, cnode),
+                 "reached only after the subscription entries and the logger registration of the module are gone",
+                 f"remove_module: `{norm(cnode)[:70]}` publishes" + (" (log record -> manager logger -> forward_message)" if "emit" in (desc or "") else "")
+                 + " while the departing module is still " + ("subscribed" if early_subs else "in logger_modules") + ": the message is routed to it, its write fails and remove_module recurses past its guard")
+
     # ---- F funnel ---------------------------------------------------------------------------------------------
     F = chk.rule("C07-F", "every departure detector calls remove_module (directly or via disconnect_module); nothing else closes a client socket", 10,
                  "a detector that forgets the removal leaves a dead client registered")
